@@ -5,6 +5,7 @@
 //	one E <code> <hex-text>    run one error text, print its result fields
 //	one M <dcs> <code> <hex>   run one migration case
 //	one D <dcs> <hex-msg> <info>
+//	one H <ops>                run one multi-client history (see clients.go), print observations and oracle
 //
 // Case file (tab separated; "-" is the empty string; bytes in hex):
 //
@@ -586,10 +587,12 @@ func main() {
 			g.random(500000)
 			g.fmtCases(100000)
 			g.migrate(30000)
+			g.histories(20000)
 		} else {
 			g.random(1500)
 			g.fmtCases(600)
 			g.migrate(150)
+			g.histories(300)
 		}
 		g.out.Close()
 		ks := make([]string, 0, len(g.stat))
@@ -610,6 +613,10 @@ func main() {
 			fmt.Println(strings.Join(runM(parseDCs(os.Args[3]), int32(code), string(vc.UnHex(os.Args[5]))), "\t"))
 		case "D":
 			fmt.Println(strings.Join(runD(parseDCs(os.Args[3]), string(vc.UnHex(os.Args[4])), os.Args[5]), "\t"))
+		case "H":
+			ops := strings.Fields(os.Args[3])
+			defaults := snapshotDefaults()
+			fmt.Println(strings.Join(runH(ops), " ") + "\t" + strings.Join(oracleH(ops, defaults), " "))
 		}
 	}
 }
